@@ -362,3 +362,34 @@ Section Server.
   Definition index_handle (c : cfg) (d : idir) (r : request) : response * idir :=
     index_exec d (index_serve c r).
 End Server.
+
+(* ---------- request histories ----------
+   Neither handler keeps anything between requests: the only state is the store.  A history of
+   requests is answered one after the other, each against the store the previous ones left. *)
+Section Histories.
+  Variable H : bytes -> id.
+  Variable zcomp : bytes -> bytes.
+  Variable zdecomp : bytes -> option bytes.
+
+  Fixpoint chunk_history (c : cfg) (s : lstore) (rs : list request) : list response * lstore :=
+    match rs with
+    | [] => ([], s)
+    | r :: rest =>
+        let (a, s1) := chunk_handle H zcomp zdecomp c s r in
+        let (l, s2) := chunk_history c s1 rest in
+        (a :: l, s2)
+    end.
+
+  Variable index_t : Type.
+  Variable idx_decode : bytes -> option index_t.
+  Variable idx_encode : index_t -> bytes.
+
+  Fixpoint index_history (c : cfg) (d : idir) (rs : list request) : list response * idir :=
+    match rs with
+    | [] => ([], d)
+    | r :: rest =>
+        let (a, d1) := index_handle index_t idx_decode idx_encode c d r in
+        let (l, d2) := index_history c d1 rest in
+        (a :: l, d2)
+    end.
+End Histories.
